@@ -88,11 +88,11 @@ class PendingModule(PendingNode[Module]):
         for node in self.node.body:
             self.converted_body.extend((yield node))
 
-    def _insert_import_lib(self, libname, asname):
+    def _insert_import_lib(self, libname, asname, importer: expr | None = None):
         import_itertools_ast = NamedExpr(
             target=Name(id=asname, ctx=Store()),
             value=Call(
-                func=Name(id="__import__", ctx=Load()),
+                func=importer or ol_builtin("__import__"),
                 args=[Constant(value=libname)],
                 keywords=[],
             ),
@@ -111,6 +111,17 @@ class PendingModule(PendingNode[Module]):
             from .presets import iter_wrapper_body
 
             self.converted_body.insert(0, iter_wrapper_body)
+
+        # the very first thing the one-liner does: whatever the script binds
+        # later, the generated code keeps calling the real builtins
+        if any(
+            isinstance(_node, Name) and _node.id == OL_BUILTINS
+            for _expr in self.converted_body
+            for _node in walk(_expr)
+        ):
+            self._insert_import_lib(
+                "builtins", OL_BUILTINS, Name(id="__import__", ctx=Load())
+            )
 
         return self.converted_body
 
@@ -575,7 +586,7 @@ class PendingBreak(PendingNode[Break]):
         elif isinstance(self.loop, PendingFor):
             return_value.append(
                 Call(
-                    func=Name(id="setattr", ctx=Load()),
+                    func=ol_builtin("setattr"),
                     args=[
                         self.loop.flow_ctrl_wrapped_iter_expr,
                         Constant(value="_break"),
@@ -641,7 +652,7 @@ class PendingAssign(PendingNode[Assign | AnnAssign]):
 
     def assign_attribute(self, target: Attribute, value: expr) -> expr:
         return Call(
-            func=Name(id="setattr", ctx=Load()),
+            func=ol_builtin("setattr"),
             args=[
                 expr_transf(self.nsp, target.value),
                 Constant(value=target.attr),
@@ -668,7 +679,7 @@ class PendingAssign(PendingNode[Assign | AnnAssign]):
                 # wrap the assign value with `tuple()`
                 # fixing issue #13
                 value=Call(
-                    func=Name(id="tuple", ctx=Load()),
+                    func=ol_builtin("tuple"),
                     args=[value],
                     keywords=[],
                 ),
@@ -691,7 +702,7 @@ class PendingAssign(PendingNode[Assign | AnnAssign]):
                     slice_upper = None
 
                 value_subscript = Call(
-                    func=Name(id="list", ctx=Load()),
+                    func=ol_builtin("list"),
                     args=[
                         Subscript(
                             value=tmp_value_name,
@@ -869,7 +880,7 @@ class PendingAugAssign(PendingNode[AugAssign]):
             )
             return_list.append(
                 Call(
-                    func=Name(id="setattr", ctx=Load()),
+                    func=ol_builtin("setattr"),
                     args=[
                         attr_parent,
                         Constant(value=target.attr),
@@ -1061,7 +1072,7 @@ class PendingReturn(PendingNode[Return]):
             elif isinstance(loop, PendingFor):
                 return_list.append(
                     Call(
-                        func=Name(id="setattr", ctx=Load()),
+                        func=ol_builtin("setattr"),
                         args=[
                             loop.flow_ctrl_wrapped_iter_expr,
                             Constant(value="_break"),
@@ -1151,7 +1162,7 @@ class PendingClassDef(_PendingCompoundStmt[ClassDef]):
             )
 
         if metaclass_expr is None:
-            metaclass_expr = Name(id="type", ctx=Load())
+            metaclass_expr = ol_builtin("type")
 
         class_body: list[expr] = []
         class_body.append(
@@ -1228,7 +1239,7 @@ class PendingImport(PendingNode[Import]):
                     self.nsp.get_assign(
                         _alias.name.split(".")[0],
                         Call(
-                            func=Name(id="__import__", ctx=Load()),
+                            func=ol_builtin("__import__"),
                             args=[Constant(value=_alias.name)],
                             keywords=[],
                         ),
@@ -1278,11 +1289,11 @@ class PendingImportFrom(PendingNode[ImportFrom]):
         import_body = NamedExpr(
             target=Name(id=tmp_mod_name, ctx=Store()),
             value=Call(
-                func=Name(id="__import__", ctx=Load()),
+                func=ol_builtin("__import__"),
                 args=[
                     Constant(value=mod_name),
-                    Call(func=Name(id="globals", ctx=Load()), args=[], keywords=[]),
-                    Call(func=Name(id="locals", ctx=Load()), args=[], keywords=[]),
+                    Call(func=ol_builtin("globals"), args=[], keywords=[]),
+                    Call(func=ol_builtin("locals"), args=[], keywords=[]),
                     List(elts=from_list, ctx=Load()),
                     Constant(value=self.node.level),
                 ],
